@@ -288,7 +288,7 @@ def c15(ctx):
             continue
         t = [rng.choice(SYMS) for _ in range(rng.randint(0, 10))]
         hdrs = [[rng.choice([1, 2, 3, 4] + list(range(6, 25))), 999 if rng.random() < 0.2 else i + 1] for i in range(rng.randint(0, 6))]
-        if rng.random() < 0.1 and form != "abs":
+        if rng.random() < 0.1 and form not in ("abs", "mounth"):      # (with the forwarder header itself both land in HTTP_SCRIPT_NAME: documented)
             hdrs.append([5, 500])
         add(form, t, hdrs=hdrs, method=rng.choice(["GET", "POST", "DELETE", "OPTIONS", "M-SEARCH", "PATCH"]),
             ver=rng.choice([10, 11, 11, 12, 15, 19]), vary=True)
